@@ -340,6 +340,8 @@ def correspond(ctx):
         'Cubic__curve_curve_intersections_t_Cubic', 'Quad__curve_curve_intersections_Quad', 'Cubic__curve_curve_intersections_Cubic', 'Line_intersections_Line',
         'Line_intersections_Quad', 'Line_intersections_Cubic', 'Quad_intersections_Line', 'Quad_intersections_Quad', 'Quad_intersections_Cubic', 'Cubic_intersections_Line',
         'Cubic_intersections_Quad', 'Cubic_intersections_Cubic'], ctx.n(10, 150), rng)
+    # getSelfIntersections as regenerated from utils/booleanoperationsmixin.py (Gen/PathOps.v; related to the hand model's index form by Proofs/Bridge5.v)
+    kernels.merge_cross_check(out, 'C06', ['Path_getSelfIntersections'], ctx.n(30, 300), rng, label='regenerated-kernels-round5')
     return out
 
 
